@@ -16,11 +16,21 @@ CasesB(op) == {[form |-> "call", op |-> op, tags |-> <<t1, t2>>, kinds |-> <<"bo
 Chains == UNION {{[form |-> "chain", op |-> o1, op2 |-> o2, tags |-> <<t1, t2, t3>>, kinds |-> <<"polygon", k2, "polygon">>] :
              o1 \in {"intersection", "union", "op_and", "difference", "multigeom", "unary_union"}, o2 \in {"intersects", "union", "op_sub", "contains"},
              t2 \in {t \in Tags : Class(t) = Class(t1)}, t3 \in Tags, k2 \in {"polygon", "multipolygon"}} : t1 \in Tags}
+\* a collection operation given ONE operand still does what shapely does with it (dissolve, node, wrap)
+Cases1(op) == {[form |-> "call", op |-> op, tags |-> <<t1>>, kinds |-> <<k>>, sg |-> FALSE] : t1 \in Tags,
+                 k \in IF OpTable[op] \in {"geom/n/geom", "geom/n/crs"} THEN Kinds \cup {"multipolygon_overlap", "multiline_cross"} ELSE {"box"}}
+\* same numeric code under two authorities, in both construction orders, and each with itself
+CasesAuth(op) == LET f == OpTable[op]
+                     k == IF f \in {"geom/2/bool", "geom/2/geom", "geom/2/geoms", "geom/n/geom", "geom/n/crs"} THEN "polygon" ELSE "box" IN
+                 IF f \in {"geom/n/geom", "geom/n/crs", "bbox/n/bbox", "geobox/n/geobox"}
+                 THEN {[form |-> "call", op |-> op, tags |-> ts, kinds |-> <<k, k, k>>, sg |-> g] : g \in BOOLEAN,
+                        ts \in UNION {{<<t1, t1, t2>>, <<t1, t2, t2>>} : t1 \in AuthTags, t2 \in AuthTags}}
+                 ELSE {[form |-> "call", op |-> op, tags |-> <<t1, t2>>, kinds |-> <<k, k>>, sg |-> g] : g \in BOOLEAN, t1 \in AuthTags, t2 \in AuthTags}
 CasesFor(op) == IF op = "chains" THEN Chains
                 ELSE IF op \notin OpNames THEN {[form |-> "call", op |-> op, tags |-> <<t1, t2>>, kinds |-> <<"polygon", "polygon">>] : t1 \in Tags, t2 \in Tags}   \* UNMODELLED-OP: generic rule
-                ELSE IF OpTable[op] \in {"geom/2/bool", "geom/2/geom", "geom/2/geoms"} THEN Cases2(op)
-                ELSE IF OpTable[op] \in {"geom/n/geom", "geom/n/crs", "bbox/n/bbox", "geobox/n/geobox"} THEN CasesN(op)
-                ELSE CasesB(op)
+                ELSE IF OpTable[op] \in {"geom/2/bool", "geom/2/geom", "geom/2/geoms"} THEN Cases2(op) \cup CasesAuth(op)
+                ELSE IF OpTable[op] \in {"geom/n/geom", "geom/n/crs", "bbox/n/bbox", "geobox/n/geobox"} THEN CasesN(op) \cup Cases1(op) \cup CasesAuth(op)
+                ELSE CasesB(op) \cup CasesAuth(op)
 VARIABLE c
 GInit == c \in {[k |-> Found[i]] : i \in DOMAIN Found} \cup {[k |-> "chains"]}
 GNext == "k" \in DOMAIN c /\ \E x \in CasesFor(c.k), w \in BOOLEAN : c' = [f \in DOMAIN x \cup {"warm"} |-> IF f = "warm" THEN w ELSE x[f]] /\ Emit(c')
